@@ -3,8 +3,12 @@
 // Contracts for package grpc, read by /verif's gcv (comment-only file).
 package grpc
 
+// Configuration objects live inside one interceptor constructor until it returns (never shared
+// while they are written).
 //@ type interceptorConfig
+//@   confined: name, tags, limiter, limitExceededResponseClassifier, serverResponseClassifer, clientResponseClassifer
 //@ type streamInterceptorConfig
+//@   confined: recvName, sendName, tags, recvLimiter, sendLimiter, recvLimitExceededResponseClassifier, sendLimitExceededResponseClassifier, serverResponseClassifer, clientResponseClassifer
 //@ type ssRecvWrapper
 //@   immutable: ServerStream, info, cfg
 
